@@ -1088,7 +1088,8 @@ fn rotations(g: &mut Gen) {
                     let r = &chosen[g.rng.below(chosen.len())];
                     let req: Vec<String> = r.iter().map(|&i| t.shape[i].0.clone()).collect();
                     let kind = if g.rng.chance(1, 2) { "reorder" } else { "transpose" };
-                    g.op(format!("copy_{} {}", kind, join(&req)));
+                    let via = if kind == "reorder" { *g.rng.pick(&["", " via=access_map", " via=access_map_with_index", " via=index_by_map"]) } else { "" };
+                    g.op(format!("copy_{} {}{}", kind, join(&req), via));
                     for _ in 0..4 {
                         let idx: Vec<usize> = ls.iter().map(|&l| g.rng.below(l)).collect();
                         let via = *g.rng.pick(&["ref", "mut", "unchecked", "unchecked_mut"]);
